@@ -1,7 +1,12 @@
 package main
 
 import (
+	"context"
 	"fmt"
+	"os"
+	"time"
+
+	"github.com/jrhy/s3db"
 
 	"verif/harness/sqlh"
 )
@@ -9,10 +14,63 @@ import (
 func init() { cmds["scratch"] = scratch }
 
 func scratch(args []string) int {
-	db := sqlh.Open()
-	b, _ := sqlh.Bucket()
-	for _, v := range []string{"0o20", "0b100", "0x10", "017", "1_000"} {
-		fmt.Println(v, sqlh.XS(db, fmt.Sprintf(`create virtual table "t%s" using s3db (entries_per_node=%s, s3_bucket='%s', columns='a primary key', s3_endpoint='http://fakes3.invalid', s3_prefix='p')`, v, v, b)))
+	switch os.Getenv("CASE") {
+	case "L4":
+		b, _ := sqlh.Bucket()
+		db := sqlh.Open()
+		fmt.Println(sqlh.XS(db, sqlh.CreateSQL(sqlh.TableOpts{Name: "t", Bucket: b, Prefix: "p", Columns: "k primary key, a", EntriesPerNode: 4})))
+		sqlh.Exec(db, "insert into t values(1,'x')")
+		sqlh.Exec(db, "insert into t values(2,'y')")
+		sqlh.Exec(db, "delete from t where k=2")
+		fmt.Println("vacuum 2300:", sqlh.XS(db, "select * from s3db_vacuum('t','2300-01-01 00:00:00')"))
+		fmt.Println("rows:", sqlh.QS(db, "select k from t"))
+		fmt.Println("insert 2:", sqlh.XS(db, "insert into t values(2,'again')"))
+		fmt.Println("rows:", sqlh.QS(db, "select k from t"))
+	case "L2":
+		b, _ := sqlh.Bucket()
+		db := sqlh.Open()
+		fmt.Println(sqlh.XS(db, sqlh.CreateSQL(sqlh.TableOpts{Name: "t", Bucket: b, Prefix: "p", Columns: "k primary key, a", EntriesPerNode: 2})))
+		for i := 0; i < 8; i++ {
+			sqlh.Exec(db, "insert into t values(?,'x')", i)
+		}
+		sqlh.Exec(db, "delete from t where k=3")
+		fmt.Println(sqlh.XS(db, "begin"))
+		fmt.Println("delete nothing:", sqlh.XS(db, "delete from t where k=99"))
+		fmt.Println("vacuum:", sqlh.XS(db, "select * from s3db_vacuum('t','2100-01-01 00:00:00')"))
+		fmt.Println("rollback:", sqlh.XS(db, "rollback"))
+		rows, err := sqlh.Query(db, "select k from t")
+		fmt.Println("rows:", len(rows), err)
+	case "L3":
+		b, store := sqlh.Bucket()
+		dbA := sqlh.Open()
+		fmt.Println(sqlh.XS(dbA, sqlh.CreateSQL(sqlh.TableOpts{Name: "a", Bucket: b, Prefix: "p", Columns: "k primary key, a", EntriesPerNode: 2})))
+		sqlh.SetWriteTime(dbA, 1)
+		sqlh.Exec(dbA, "insert into a values(1,'one')")
+		sqlh.SetWriteTime(dbA, 2)
+		sqlh.Exec(dbA, "insert into a values(2,'two')")
+		dbB := sqlh.Open()
+		fmt.Println(sqlh.XS(dbB, sqlh.CreateSQL(sqlh.TableOpts{Name: "b", Bucket: b, Prefix: "p", Columns: "k primary key, a", EntriesPerNode: 2})))
+		sqlh.SetWriteTime(dbB, 3)
+		sqlh.Exec(dbB, "delete from b where k=2")
+		fmt.Println("B vacuum (cutoff 2007):", sqlh.XS(dbB, "select * from s3db_vacuum('b','2021-01-01 00:00:00')"))
+		fmt.Println("B rows:", sqlh.QS(dbB, "select k from b"), "nodes", len(store.Keys("p/s3db-rows/node/")))
+		for _, k := range store.Keys("p/s3db-rows/") {
+			fmt.Println("  before A:", k)
+		}
+		fmt.Println("A (stale) vacuum:", s3db.Vacuum(context.Background(), "a", time.Now().Add(time.Hour)), "nodes", len(store.Keys("p/s3db-rows/node/")))
+		fmt.Println("dangling:", danglingIn(store, "p/s3db-rows/root/current/"))
+		for _, k := range store.Keys("p/s3db-rows/") {
+			bb, _ := store.Get(k)
+			if len(bb) < 400 && k[len("p/s3db-rows/")] == 'r' {
+				fmt.Println("  ", k, string(bb))
+			} else {
+				fmt.Println("  ", k, len(bb))
+			}
+		}
+		dbC := sqlh.Open()
+		fmt.Println(sqlh.XS(dbC, sqlh.CreateSQL(sqlh.TableOpts{Name: "c", Bucket: b, Prefix: "p", Columns: "k primary key, a", EntriesPerNode: 2, ReadOnly: true})))
+		rows, err := sqlh.Query(dbC, "select k from c")
+		fmt.Println("fresh reader:", rows, err)
 	}
 	return 0
 }
